@@ -164,4 +164,16 @@ mut("C12 clamp after the incomplete gamma calls", [(GAM, "        if x_n <= 0. {
 mut("C12 N: clamp written with max", [(GAM, "        if x_n <= 0. {\n            x_n = 1.0e-16;\n        }\n", "        x_n = x_n.max(1.0e-16);\n")], C12=None)
 mut("C12 N: negated form of the clamp", [(GAM, "        if x_n <= 0. {\n            x_n = 1.0e-16;\n        }\n", "        if !(x_n > 0.) {\n            x_n = 1.0e-16;\n        }\n")], C12=None)
 
+# ---- C14-h ----
+mut("C14 pop_edge clears with AND-NOT of the wrong bit", [(PRE, "            id: self.id ^ (1 << edge_id),", "            id: self.id ^ (1 << (edge_id + 1)),")], C14="C14-h")
+mut("C14 has_one_edge tests two bits", [(PRE, "        self.id.count_ones() == 1", "        self.id.count_ones() <= 2")], C14="C14-h")
+mut("C14 full id one bit short", [(PRE, "            id: (1 << num_edges) - 1,", "            id: (1 << num_edges) - 2,")], C14="C14-h")
+
+# ---- C03-e / C03-f ----
+mut("C03 Euler formula without the component's +1", [(PRE, "        1 + num_edges - num_vertices", "        num_edges + 1 - num_vertices - 1 + 1 - 1")], C03="C03-f")
+mut("C03 loop number counts only left endpoints", [(PRE, "            vertices.insert(self.topology[edge].left);\n            vertices.insert(self.topology[edge].right);", "            vertices.insert(self.topology[edge].left);\n            vertices.insert(self.topology[edge].left);")], C03="C03-f")
+mut("C03 momentum spanning tested on any component vertex", [(PRE, "            self.external_vertices.iter().all(|&v| {", "            self.external_vertices.iter().any(|&v| {")], C03="C03-e", C05="C05-d")
+mut("C03 mass spanning with >=", [(PRE, "let is_mass_spanning = num_massive_edges == self.num_massive_edges;", "let is_mass_spanning = num_massive_edges + 1 >= self.num_massive_edges;")], C03="C03-e")
+mut("C03 N: conjunction commuted", [(PRE, "        is_mass_spanning && is_momentum_spanning", "        is_momentum_spanning && is_mass_spanning")], C03=None, C05=None)
+
 MUTATIONS = M
